@@ -26,7 +26,7 @@ ASSUMPTIONS = ["outside the generated domain (spec and statement silent or ambig
 PROBES = ["cr_only_terminators", "cut_between_cr_and_lf", "cut_right_after_cr", "chunked_delivery", "multi_line_data", "comment_lines",
           "id_persists_across_events", "retry_set", "block_without_data"]
 BOUNDS = dict(quick=dict(events=6), thorough=dict(events=10))
-TIERS = dict(quick=dict(cases=30000, wall=40.0), thorough=dict(cases=4000000, wall=420.0))
+TIERS = dict(quick=dict(cases=100000, wall=60.0), thorough=dict(cases=4000000, wall=420.0))
 SIM_TIME_UNIT = "reads"
 
 VALS = ["x", "hello world", " lead", "a:b", "", "é中", "0", "{\"k\": 1}", "data: nested", "tab\tin"]
